@@ -110,7 +110,7 @@ def impl(case):
         meth = names[case["alias"] % len(names)]
         Q = queries[q]
         if q in dead:
-            Q = Query(iter(()), Q._env)
+            Q = Query(iter(()), jsonpath.DEFAULT_ENV)
             queries[q] = Q
             dead.discard(q)
         try:
